@@ -108,7 +108,7 @@ type world struct {
 	shareIdx int // share index (1-based) of the node under test
 	vals     []*valInfo
 	co       []*valInfo // the cluster validators again, all with a duty in one common slot / committee / subcommittee
-	outsider *valInfo // active on the beacon node, not part of the cluster lock
+	outsider *valInfo   // active on the beacon node, not part of the cluster lock
 	byIndex  map[eth2p0.ValidatorIndex]*valInfo
 	byCore   map[core.PubKey]*valInfo
 	lock     cluster.Lock
@@ -143,11 +143,12 @@ type world struct {
 	attByKey   map[attKey]*valInfo
 
 	// peer path
-	net      *fakenet.Net
-	peers    []peer.ID
-	ex       *parsigex.ParSigEx
-	senders  map[int]*parsigex.ParSigEx // honest sender nodes by peer index
-	peerSub  atomic.Pointer[submission]
+	net     *fakenet.Net
+	peers   []peer.ID
+	ex      *parsigex.ParSigEx
+	senders map[int]*parsigex.ParSigEx // honest sender nodes by peer index
+	peerSub atomic.Pointer[submission]
+	domGate *domainGate
 
 	// fault injection: a second real ParSigEx of the same node (own host id) whose stream-handler
 	// context has a very short receive timeout; harness wrappers around the REAL gater / verifier
@@ -157,7 +158,7 @@ type world struct {
 	faultSub  atomic.Pointer[submission]
 	faultMode atomic.Int32 // 0 off, 1 context expires after gating / before verification, 2 expires inside the first verification
 	ctxDead   atomic.Int64 // verifications that started with a done context (evidence)
-	verCache sync.Map // verification cache: key string -> bool
+	verCache  sync.Map     // verification cache: key string -> bool
 }
 
 func (w *world) close() {
@@ -517,7 +518,8 @@ func newWorld(t *testing.T, rng *rand.Rand, prod bool) (*world, error) {
 		}
 		w.peers = append(w.peers, id)
 	}
-	verify, err := parsigex.NewEth2Verifier(w.client, w.pubShare)
+	w.domGate = &domainGate{Client: w.client}
+	verify, err := parsigex.NewEth2Verifier(w.domGate, w.pubShare)
 	if err != nil {
 		w.close()
 		return nil, err
